@@ -6,7 +6,7 @@ P=$1; NAME=${2:-$1}; WT=${3:-/tmp/seed-$NAME}; OUT=/verif/seeded/$NAME
 mkdir -p $OUT
 cp $WT/_seed/patch.diff $OUT/patch.diff; cp $WT/_seed/demo_test.py $OUT/ 2>/dev/null; cp $WT/_seed/meta.json $OUT/meta.agent.json 2>/dev/null
 cd $WT
-git checkout -q -- src; git apply _seed/patch.diff
+git checkout -q -- src; git clean -fdq src; git apply _seed/patch.diff
 SUITE=$(PYTHONPATH=$WT/src /venv/bin/python -m pytest -q -p no:cacheprovider --timeout=900 src/wormhole_mailbox_server/test 2>&1 | tail -1)
 PYTHONPATH=$WT/src timeout 300 /venv/bin/python $WT/_seed/demo_test.py >/dev/null 2>&1; WITH=$?
 git apply -R _seed/patch.diff; PYTHONPATH=$WT/src timeout 300 /venv/bin/python $WT/_seed/demo_test.py >/dev/null 2>&1; WITHOUT=$?; git apply _seed/patch.diff
